@@ -200,6 +200,39 @@ func SetValue(rng *rand.Rand, family string) (val any, text string) {
 	panic("unknown family " + family)
 }
 
+// listWithText carries per-item spellings of a generated {a,b} list out of SetValue.
+type listWithText struct {
+	items []any
+	texts []string
+}
+
+// setList generates a {a,b} list for --set: ints, strings needing escapes, booleans / nulls in
+// mixed case, and look-alikes of typed literals (which must stay strings) in item position.
+func setList(rng *rand.Rand) (any, string) {
+	n := 1 + rng.Intn(3)
+	l := listWithText{items: make([]any, n), texts: make([]string, n)}
+	for i := range l.items {
+		switch rng.Intn(8) {
+		case 0:
+			l.items[i] = float64(rng.Intn(50))
+		case 1:
+			l.items[i] = Pick(rng, []string{"i,j", "cl}ose", "007", `b\s`, "01"})
+		case 2:
+			b := rng.Intn(2) == 0
+			l.items[i] = b
+			l.texts[i] = Pick(rng, map[bool][]string{true: {"true", "TRUE", "tRuE"}, false: {"false", "False", "fAlSe"}}[b])
+		case 3:
+			l.items[i] = nil
+			l.texts[i] = Pick(rng, []string{"null", "NULL", "nUlL"})
+		case 4, 5:
+			l.items[i] = Pick(rng, lookAlikes)
+		default:
+			l.items[i] = Pick(rng, words[:8])
+		}
+	}
+	return l, ""
+}
+
 var lookAlikes = []string{"t", "T", "f", "F", "y", "n", "yes", "no", "Yes", "NO", "on", "off", "On", "OFF", "~", "nil", "none", "tru", "falsy", "nul"}
 
 func pickKey(rng *rand.Rand, existing []string, family string, special bool) string {
@@ -294,5 +327,8 @@ func SetOpFor(rng *rand.Rand, cur map[string]any, family string, special bool, c
 		break
 	}
 	v, text := SetValue(rng, family)
+	if lt, ok := v.(listWithText); ok {
+		return ref.SetOp{Path: path, Val: lt.items, ItemText: lt.texts}
+	}
 	return ref.SetOp{Path: path, Val: v, Text: text}
 }
